@@ -594,6 +594,7 @@ func init() {
 		return setDel(fr, txn(args[0]), keyBytes(args[1]), nil, true)
 	})
 	M("Txn", "Commit", func(fr *frame, args []value) value {
+		commitSchedPoint(fr) // a commit is a Badger access: scheduling point commit:<file>:<line>
 		commitPoint(fr)
 		t := txn(args[0])
 		if t.discarded {
